@@ -21,7 +21,7 @@ var htmlQuick = []Mix{
 	{Gen: "mut", Dict: "htmlfull", N: 250000},
 	{Gen: "novel", Dict: "htmlfull", N: 150000},
 	{Gen: "g04", N: 150000},
-	{Gen: "scale", N: 70000}, {Gen: "seam"}, {Gen: "nulpad"}, {Gen: "wrapcount"}, {Gen: "foldalias"}, {Gen: "attrvals"}, {Gen: "nsattrs"}, {Gen: "elements"}, {Gen: "doubled"},
+	{Gen: "scale", N: 70000}, {Gen: "seam"}, {Gen: "nulpad"}, {Gen: "wrapcount"}, {Gen: "foldalias"}, {Gen: "attrvals"}, {Gen: "nsattrs"}, {Gen: "elements"}, {Gen: "doubled"}, {Gen: "toktails"},
 }
 
 var htmlThorough = []Mix{
@@ -32,7 +32,7 @@ var htmlThorough = []Mix{
 	{Gen: "mut", Dict: "htmlfull", N: 4000000},
 	{Gen: "novel", Dict: "htmlfull", N: 2000000},
 	{Gen: "g04", N: 2000000},
-	{Gen: "scale", N: 70000}, {Gen: "scale", N: 100000}, {Gen: "seam", N: 1}, {Gen: "nulpad"}, {Gen: "wrapcount"}, {Gen: "foldalias"}, {Gen: "attrvals"}, {Gen: "nsattrs"}, {Gen: "elements"}, {Gen: "doubled"},
+	{Gen: "scale", N: 70000}, {Gen: "scale", N: 100000}, {Gen: "seam", N: 1}, {Gen: "nulpad"}, {Gen: "wrapcount"}, {Gen: "foldalias"}, {Gen: "attrvals"}, {Gen: "nsattrs"}, {Gen: "elements"}, {Gen: "doubled"}, {Gen: "toktails"},
 }
 
 func htmlPlan(quick, thorough []Mix) func(string, uint64) []core.Unit {
@@ -97,12 +97,12 @@ func c15() *core.Check {
 	quick := []Mix{
 		{Gen: "atoms", Dict: "htmlbytes0", K: 5},
 		{Gen: "atoms", Dict: "htmlfull0", K: 3},
-		{Gen: "f-corpus"}, {Gen: "f-seq", N: 300000}, {Gen: "f-mut", N: 300000}, {Gen: "f-g04", N: 300000}, {Gen: "f-bytetpl"}, {Gen: "f-utf8tpl"}, {Gen: "f-scale", N: 128 << 10}, {Gen: "f-padded"}, {Gen: "nulpad"}, {Gen: "wrapcount"}, {Gen: "foldalias"}, {Gen: "attrvals"}, {Gen: "nsattrs"}, {Gen: "elements"}, {Gen: "doubled"}, {Gen: "huge", Dict: "quick"}, {Gen: "encvec"}, {Gen: "giantx"},
+		{Gen: "f-corpus"}, {Gen: "f-seq", N: 300000}, {Gen: "f-mut", N: 300000}, {Gen: "f-g04", N: 300000}, {Gen: "f-bytetpl"}, {Gen: "f-utf8tpl"}, {Gen: "f-scale", N: 128 << 10}, {Gen: "f-padded"}, {Gen: "nulpad"}, {Gen: "wrapcount"}, {Gen: "foldalias"}, {Gen: "attrvals"}, {Gen: "nsattrs"}, {Gen: "elements"}, {Gen: "doubled"}, {Gen: "toktails"}, {Gen: "huge", Dict: "quick"}, {Gen: "encvec"}, {Gen: "giantx"},
 	}
 	thorough := []Mix{
 		{Gen: "atoms", Dict: "htmlbytes0", K: 6},
 		{Gen: "atoms", Dict: "htmlfull0", K: 4},
-		{Gen: "f-corpus"}, {Gen: "f-seq", N: 5000000}, {Gen: "f-mut", N: 5000000}, {Gen: "f-g04", N: 5000000}, {Gen: "f-bytetpl"}, {Gen: "f-utf8tpl"}, {Gen: "f-scale", N: 1 << 20}, {Gen: "f-scale", N: 100000}, {Gen: "f-padded", N: 1}, {Gen: "nulpad"}, {Gen: "wrapcount"}, {Gen: "foldalias"}, {Gen: "attrvals"}, {Gen: "nsattrs"}, {Gen: "elements"}, {Gen: "doubled"}, {Gen: "huge", Dict: "thorough"}, {Gen: "encvec"}, {Gen: "giantx", N: 1},
+		{Gen: "f-corpus"}, {Gen: "f-seq", N: 5000000}, {Gen: "f-mut", N: 5000000}, {Gen: "f-g04", N: 5000000}, {Gen: "f-bytetpl"}, {Gen: "f-utf8tpl"}, {Gen: "f-scale", N: 1 << 20}, {Gen: "f-scale", N: 100000}, {Gen: "f-padded", N: 1}, {Gen: "nulpad"}, {Gen: "wrapcount"}, {Gen: "foldalias"}, {Gen: "attrvals"}, {Gen: "nsattrs"}, {Gen: "elements"}, {Gen: "doubled"}, {Gen: "toktails"}, {Gen: "huge", Dict: "thorough"}, {Gen: "encvec"}, {Gen: "giantx", N: 1},
 	}
 	plan := func(tier string, seed uint64) []core.Unit {
 		mixes := quick
@@ -146,7 +146,7 @@ func c15() *core.Check {
 	}
 	return &core.Check{
 		ID: "C15",
-		Rule: "strings over bytes minus {'<','='}: bounded-exhaustive sequences over the HTML alphabet minus atoms containing the two bytes; corpus truncations, random sequences, mutations, XSS-grammar vectors, byte / UTF-8 character templates, the length-parameterised families at 128 KiB (thorough 1 MiB) corpus inputs padded to 255-65537 bytes, NUL-padded words and benign bodies of 128 KiB-16 MiB (thorough 64 MiB), with every '<'/'=' deleted or replaced; every seed vector in 20 transport encodings that hold neither byte (base64 with and without a data: prefix, hex, URL / double URL encoding, character references, \\\\u003c / \\\\x3c / octal escapes, UTF-7, high-bit US-ASCII, fullwidth); plain prose of 100 and 128 MiB (thorough up to 256 MiB). Oracle: IsXSS = false (the firing context is reported). " +
+		Rule: "strings over bytes minus {'<','='}: bounded-exhaustive sequences over the HTML alphabet minus atoms containing the two bytes; corpus truncations, random sequences, mutations, XSS-grammar vectors, byte / UTF-8 character templates, the length-parameterised families at 128 KiB (thorough 1 MiB) corpus inputs padded to 255-65537 bytes, NUL-padded words and benign bodies of 128 KiB-16 MiB (thorough 64 MiB), with every '<'/'=' deleted or replaced; every seed vector in 31 transport encodings that hold neither byte (CSS hex escapes in three spellings inside and outside rule bodies, \\\\u escapes inside JSON / template braces, base64 with and without a data: prefix, hex, URL / double URL encoding, character references, \\\\u003c / \\\\x3c / octal escapes, UTF-7, high-bit US-ASCII, fullwidth); plain prose of 100 and 128 MiB (thorough up to 256 MiB). Oracle: IsXSS = false (the firing context is reported). " +
 			"Non-trivial = the tokenizer produced a non-text token in some context (attribute machinery exercised); distinct by input.",
 		Plan: plan,
 		Gen: func(w *core.Worker, u core.Unit, emit func(core.Case)) {
@@ -186,6 +186,18 @@ func c15() *core.Check {
 					b64 := base64.RawStdEncoding.EncodeToString([]byte(v))
 					b64u := base64.RawURLEncoding.EncodeToString([]byte(v))
 					hx := hex.EncodeToString([]byte(v))
+					// CSS escapes (\3c + one white space, six-digit form, every byte escaped) inside
+					// rule bodies, and \u escapes inside a JSON object: a '{' precedes the escapes
+					css1 := strings.NewReplacer("<", "\\3c ", ">", "\\3e ", "=", "\\3d ").Replace(v)
+					css6 := strings.NewReplacer("<", "\\00003C", ">", "\\00003E", "=", "\\00003D").Replace(v)
+					cssAll := ""
+					for k := 0; k < len(v); k++ {
+						cssAll += "\\" + hex.EncodeToString([]byte{v[k]}) + " "
+					}
+					ju := strings.NewReplacer("<", "\\u003c", ">", "\\u003e", "=", "\\u003d", "\"", "\\\"").Replace(v)
+					for _, e := range []string{"a{content:'" + css1 + "'}", "x{} " + css1, "@media x{a{b:" + css6 + "}}", "{" + cssAll + "}", "a{}" + cssAll, css1, css6, cssAll, "{\"k\":\"" + ju + "\"}", "${" + ju + "}", "{{" + css1 + "}}"} {
+						emit(core.Case{In: e})
+					}
 					for _, e := range []string{"data:text/html;base64," + b64, "data:;base64," + b64, "data:image/svg+xml;base64," + b64, "base64," + b64u, b64, "DATA:text/html;charset\x00utf-8;base64," + b64,
 						hx, "0x" + hx, "\\x" + strings.ToUpper(hx[:2]) + v[1:], pctEncode(v), pctEncode(pctEncode(v)), strings.ReplaceAll(pctEncode(v), "%", "%25"),
 						strings.NewReplacer("<", "&lt;", ">", "&gt;", "=", "&#61;", "\"", "&quot;").Replace(v), strings.NewReplacer("<", "\\u003c", ">", "\\u003e", "=", "\\u003d").Replace(v),
